@@ -56,6 +56,12 @@ func sceneWithdraw(o WdOpts) {
 			}
 		}
 	}
+	// the base denomination may have been changed by governance since the earnings were recorded
+	if vf.Bool("baseDenomChanged") {
+		prm := k.GetParams(ctx)
+		prm.BaseDenom = Gold
+		k.SetParams(ctx, prm)
+	}
 	payee := o1
 	if vf.Bool("hasWithdrawAddr") {
 		payee = vf.Addr("withdrawAddr", 20)
@@ -126,10 +132,10 @@ func sceneWithdraw(o WdOpts) {
 	vf.Reach("paid")
 	switch tsel {
 	case 0:
-		chkKF("C13 C02 C01", vf.All(got[0].IsZero(), got[1].IsZero(), t1.IsZero()), "owner-withdrawal-resets-all-its-records", "F6", inF6)
+		chkKF("C13 C02 C01 C20", vf.All(got[0].IsZero(), got[1].IsZero(), t1.IsZero()), "owner-withdrawal-resets-all-its-records", "F6", inF6)
 		chkKF("C13 C01", vf.And(paid.Equal(tot1), escrow.Sub(esc1).Equal(tot1)), "owner-withdrawal-pays-owner-total", "F6", inF6)
 	case 1:
-		chkKF("C13 C02 C01", vf.All(got[0].IsZero(), got[1].Equal(e[1]), t1.Equal(tot1.Sub(e[0]))), "provider-withdrawal-resets-only-that-provider", "F6", inF6)
+		chkKF("C13 C02 C01 C20", vf.All(got[0].IsZero(), got[1].Equal(e[1]), t1.Equal(tot1.Sub(e[0]))), "provider-withdrawal-resets-only-that-provider", "F6", inF6)
 		chkKF("C13 C01", vf.And(paid.Equal(e[0]), escrow.Sub(esc1).Equal(e[0])), "provider-withdrawal-pays-that-provider", "F6", inF6)
 	}
 	// EARN after the step
